@@ -4,6 +4,7 @@ import (
 	"fmt"
 	"math/big"
 	"strings"
+	"time"
 
 	sdk "github.com/cosmos/cosmos-sdk/types"
 
@@ -128,6 +129,7 @@ func (m *C06) OnStep(_ explore.Ghost, st *explore.Step) []V {
 type wantOrder struct {
 	seller, batch, qty, askAmount, askDenom string
 	dar                                     bool
+	exp                                     *time.Time // nil: no expiration
 }
 
 // asRequested: a created or updated order carries exactly the requested seller, batch, quantity, ask
@@ -144,7 +146,7 @@ func ordersAsRequested(st *explore.Step, ids []uint64) []string {
 			if o.AskPrice == nil {
 				return nil
 			}
-			want[ids[i]] = &wantOrder{seller: msg.Seller, batch: o.BatchDenom, qty: o.Quantity, askAmount: o.AskPrice.Amount.String(), askDenom: o.AskPrice.Denom, dar: o.DisableAutoRetire}
+			want[ids[i]] = &wantOrder{seller: msg.Seller, batch: o.BatchDenom, qty: o.Quantity, askAmount: o.AskPrice.Amount.String(), askDenom: o.AskPrice.Denom, dar: o.DisableAutoRetire, exp: o.Expiration}
 		}
 	case *markettypes.MsgUpdateSellOrders:
 		for _, u := range msg.Updates {
@@ -158,6 +160,9 @@ func ordersAsRequested(st *explore.Step, ids []uint64) []string {
 				if mk := st.Pre.Market(po.MarketId); mk != nil {
 					w.askDenom = mk.BankDenom
 				}
+				if e, has := expiry(po); has {
+					w.exp = &e
+				}
 				want[u.SellOrderId] = w
 			}
 			w.dar = u.DisableAutoRetire
@@ -166,6 +171,9 @@ func ordersAsRequested(st *explore.Step, ids []uint64) []string {
 			}
 			if u.NewQuantity != "" {
 				w.qty = u.NewQuantity
+			}
+			if u.NewExpiration != nil {
+				w.exp = u.NewExpiration // an update without a new expiration leaves the signed one in force
 			}
 		}
 	}
@@ -187,6 +195,9 @@ func ordersAsRequested(st *explore.Step, ids []uint64) []string {
 		}
 		if o.AskAmount != w.askAmount {
 			diffs = append(diffs, fmt.Sprintf("ask amount %s, requested %s", o.AskAmount, w.askAmount))
+		}
+		if e, has := expiry(o); has != (w.exp != nil) || (has && !e.Equal(*w.exp)) {
+			diffs = append(diffs, fmt.Sprintf("expiration %v, requested %v", o.Expiration, w.exp))
 		}
 		if o.DisableAutoRetire != w.dar {
 			diffs = append(diffs, fmt.Sprintf("disable_auto_retire %v, requested %v", o.DisableAutoRetire, w.dar))
